@@ -2,7 +2,7 @@
    A float (binary32/binary64, Python float or NumPy scalar) is the exact dyadic  m * 2^e  (Dy m e).
    L = Z.log2 m; math.frexp's exponent is E = e + L + 1 (2^(E-1) <= scale < 2^E); Vela's shift is
    s = 31 - E.  The hardware range is 0 <= s <= 63, i.e. 2^-33 <= scale < 2^31. *)
-From Coq Require Import ZArith List Bool.
+From Coq Require Import ZArith List Bool QArith Qabs.
 From VV Require Import lib.PyInt lib.PyFloat gen.GenScaling model.Scaling
   proofs.ScalingProofs proofs.ScalingPoolProofs proofs.ScalingFloatProofs.
 Import ListNotations.
@@ -125,13 +125,17 @@ Theorem pooling_scale_exact_16bit :
       apply_scale acc scale shift = div_half_up acc n.
 Proof. exact pooling_scale_exact_16bit_lemma. Qed.
 
-(* the same pair under TFLite-style double rounding (round at bit 31, then at shift - 31) *)
-Theorem pooling_scale_exact_double_round :
-  forall n A acc, 1 <= n -> 1 <= A -> 2 * n * A < 2 ^ 31 -> 0 <= acc <= n * A ->
-    exists scale shift,
-      GenScaling.quantise_pooling_scale n 0 = Some (scale, shift) /\
-      apply_scale_double acc scale shift = div_half_up acc n.
-Proof. exact pooling_scale_exact_double_round_lemma. Qed.
+(* Modelled hardware semantics: apply_scale is natural rounding,  (acc * scale + 2^(shift-1)) >> shift.
+   Under TFLite-style double rounding (round at bit 31, then at shift - 31) the same pair is NOT
+   exact for every 8-bit window; stated so that the dependence on the rounding the NPU applies
+   to the pooling scale is visible. *)
+Theorem pooling_scale_double_round_differs :
+  exists n acc scale shift,
+    1 <= n <= 65536 /\ 0 <= acc <= n * 255 /\
+    GenScaling.quantise_pooling_scale n 0 = Some (scale, shift) /\
+    apply_scale acc scale shift = div_half_up acc n /\
+    apply_scale_double acc scale shift <> div_half_up acc n.
+Proof. exact pooling_scale_double_round_differs_lemma. Qed.
 
 (* beyond the bound a 32-bit multiplier is not precise enough: 16-bit data, 256x256 window *)
 Theorem pooling_scale_16bit_refuted :
@@ -140,6 +144,24 @@ Theorem pooling_scale_16bit_refuted :
     GenScaling.quantise_pooling_scale n 0 = Some (scale, shift) /\
     apply_scale acc scale shift = 32810 /\ div_half_up acc n = 32809.
 Proof. exact pooling_scale_16bit_refuted_lemma. Qed.
+
+(* signed 16-bit data, the only 16-bit type the TFLite front end produces (|x| <= 32768, zero point 0):
+   exact for every window up to 2^15 elements, for both signs ... *)
+Theorem pooling_scale_exact_int16 :
+  forall n acc, 1 <= n <= 32768 -> 0 <= acc <= n * 32768 ->
+    exists scale shift,
+      GenScaling.quantise_pooling_scale n 0 = Some (scale, shift) /\
+      apply_scale acc scale shift = div_half_up acc n /\
+      (0 < acc -> apply_scale (- acc) scale shift = - div_half_up acc n).
+Proof. exact pooling_scale_exact_int16_lemma. Qed.
+
+(* ... and not beyond: a 135 x 247 window (accepted by the operator checks) with mean 32646.49998 *)
+Theorem pooling_scale_int16_refuted :
+  exists n acc scale shift,
+    n = 135 * 247 /\ 0 <= acc <= n * 32767 /\
+    GenScaling.quantise_pooling_scale n 0 = Some (scale, shift) /\
+    apply_scale acc scale shift = 32647 /\ div_half_up acc n = 32646.
+Proof. exact pooling_scale_int16_refuted_lemma. Qed.
 
 (* negative accumulators: nearest, halfway cases away from zero (what the signed reference kernel does) *)
 Theorem pooling_scale_negative :
@@ -161,25 +183,43 @@ Theorem pooling_scale_headroom :
                         2 ^ (31 - rb) <= scale < 2 ^ (32 - rb).
 Proof. exact pooling_scale_headroom_lemma. Qed.
 
-(* ---- elementwise mul / add / sub (partial: exponent range unbounded, uniform precision) ---- *)
-(* Evaluated in binary64 (Python float or np.float64 operands), advanced add/sub scaling yields the
-   reference multipliers of TFLite's add/sub Prepare: the operand with the smaller scale gets the
-   reference's input multiplier with the left shift folded into Vela's shift, the output pair is
-   the reference's output multiplier, wherever Vela's shifts stay within [0, 62]. *)
+(* ---- elementwise mul / add / sub ---- *)
+(* PARTIAL: the float expressions of scaling.py are modelled by round-to-nearest-even dyadic
+   arithmetic with p-bit significands and unbounded exponents (no overflow/underflow/subnormal
+   results), one precision for the whole expression; the model is tied to the Python functions by
+   correspondence only (they are not translated).  same_value v t ls: Vela's pair v = (q, s),
+   denoting q * 2^-s, equals the reference pair t = (q', s'), denoting q' * 2^(s'-31), times 2^ls.
+   Evaluated in binary64 (p = 53: Python float / np.float64 operands), advanced add/sub scaling gives
+   the operand with the smaller scale the reference's (add.cc / sub.cc Prepare) input multiplier with
+   the left shift folded into the shift, and the reference's output multiplier, wherever Vela's pair
+   is in range with shift <= 62 and the reference does not flush its (unshifted) input multiplier.
+   With p = 24 (np.float32 operands under NumPy >= 2) the conclusion fails: Example ew_advanced_ex. *)
 Theorem elementwise_add_sub_eq_reference_partial :
   forall in1 in2 out bitdepth, 0 < dm in1 -> 0 < dm in2 -> 0 < dm out ->
     let ls := if bitdepth =? 8 then 20 else 15 in
     let '(vin, vout, op) := ew_advanced 53 in1 in2 out bitdepth in
-    let '(t1, t2, tout) := tfl_add_params in1 in2 out ls in
-    let tin := if op =? 1 then t1 else t2 in
-    (0 <= snd vin <= 62 -> same_value vin tin ls) /\
-    (0 <= snd vout <= 62 -> same_value vout tout 0).
+    let '(_, _, tout) := tfl_add_params in1 in2 out ls in
+    op = (if dy_ltb in1 in2 then 1 else 2) /\
+    (fst vin <> 0 -> snd vin + ls <= 62 -> same_value vin (tfl_min_input in1 in2) ls) /\
+    (fst vout <> 0 -> snd vout <= 62 -> same_value vout tout 0).
 Proof. exact ew_advanced_eq_reference_lemma. Qed.
 
+(* tfl_min_input is the reference's real_input1/2_multiplier of the operand with the smaller scale *)
+Theorem elementwise_add_sub_reference_operand :
+  forall in1 in2 out ls,
+    let '(t1, t2, _) := tfl_add_params in1 in2 out ls in
+    (dy_ltb in1 in2 = true -> tfl_min_input in1 in2 = t1) /\
+    (dy_ltb in2 in1 = true -> tfl_min_input in1 in2 = t2) /\
+    (dy_ltb in1 in2 = false -> dy_ltb in2 in1 = false -> tfl_min_input in1 in2 = t1).
+Proof. exact tfl_min_input_is. Qed.
+
+(* mul: whatever the precision p of the evaluation, Vela's pair and QuantizeMultiplier of the same
+   rounded real multiplier denote the same value (p = 24: mul.cc evaluates in float; p = 53:
+   TFLite Micro evaluates in double) *)
 Theorem elementwise_mul_eq_reference_partial :
-  forall p in1 in2 out, 0 < dm in1 -> 0 < dm in2 -> 0 < dm out ->
+  forall p in1 in2 out, 1 <= p -> 0 < dm in1 -> 0 < dm in2 -> 0 < dm out ->
     let v := ew_mul_scale p in1 in2 out in
-    0 <= snd v <= 62 -> same_value v (tfl_mul_params p in1 in2 out) 0.
+    fst v <> 0 -> snd v <= 62 -> same_value v (tfl_mul_params p in1 in2 out) 0.
 Proof. exact ew_mul_eq_reference_lemma. Qed.
 
 Print Assumptions quantise_scale_accurate.
@@ -189,8 +229,10 @@ Print Assumptions quantise_scale_eq_tflite.
 Print Assumptions quantise_scale_tflite_shift63.
 Print Assumptions reduced_quantise_scale_accurate.
 Print Assumptions pooling_scale_exact.
-Print Assumptions pooling_scale_exact_double_round.
+Print Assumptions pooling_scale_double_round_differs.
 Print Assumptions pooling_scale_16bit_refuted.
+Print Assumptions pooling_scale_exact_int16.
+Print Assumptions pooling_scale_int16_refuted.
 Print Assumptions pooling_scale_negative.
 Print Assumptions elementwise_add_sub_eq_reference_partial.
 Print Assumptions elementwise_mul_eq_reference_partial.
